@@ -16,6 +16,8 @@ RECURSIVE SkipWs(_, _)
 SkipWs(s, i) == IF i <= Len(s) /\ s[i] \in WS THEN SkipWs(s, i + 1) ELSE i
 RECURSIVE DigitsEnd(_, _, _)
 DigitsEnd(s, i, b) == IF i <= Len(s) /\ DigitVal(s[i]) < b THEN DigitsEnd(s, i + 1, b) ELSE i
+RECURSIVE SkipZeros(_, _, _)
+SkipZeros(s, i, e) == IF i < e /\ s[i] = 48 THEN SkipZeros(s, i + 1, e) ELSE i
 \* result: [ok, neg, mag, endpos]
 Scan(s, base) ==
   LET i0 == SkipWs(s, 1)
@@ -25,7 +27,10 @@ Scan(s, base) ==
       b == IF hexp THEN 16 ELSE IF base = 0 THEN (IF i1 <= Len(s) /\ s[i1] = 48 THEN 8 ELSE 10) ELSE base
       i2 == IF hexp THEN i1 + 2 ELSE i1
       i3 == DigitsEnd(s, i2, b)
-  IN [ok |-> i3 > i2, neg |-> neg, mag |-> FromDigits([k \in 1..(i3 - i2) |-> DigitVal(s[i2 + k - 1])], b, <<>>), endpos |-> i3]
+      iz == SkipZeros(s, i2, i3)                     \* leading zeros do not matter
+      \* more than 70 significant digits in any base is beyond 2^64: no need for the exact magnitude
+      mag == IF i3 - iz > 70 THEN Pow2(80) ELSE FromDigits([k \in 1..(i3 - iz) |-> DigitVal(s[iz + k - 1])], b, <<>>)
+  IN [ok |-> i3 > i2, neg |-> neg, mag |-> mag, endpos |-> i3]
 \* signed comparison of [neg, mag] pairs
 SLeq(xn, xm, yn, ym) == IF xn /\ ~yn THEN TRUE ELSE IF ~xn /\ yn THEN (xm = <<>> /\ ym = <<>>) ELSE IF ~xn THEN Leq(xm, ym) ELSE Leq(ym, xm)
 InRange(neg, mag, lo, hi) == SLeq(lo.neg, lo.mag, neg, mag) /\ SLeq(neg, mag, hi.neg, hi.mag)
